@@ -72,10 +72,16 @@ def _worker(job):
                     glr = GLRParser(g, tables=tabs)
             except BaseException as e:  # noqa
                 c["glr_err"] = impl.exc_kind(e)
+        n_to = 0
         for w in inputs:
             r = {}
+            if n_to >= 2:
+                # the parser loops on this grammar: two time-outs are enough
+                r["kind"] = "skipped-after-timeouts"
+                c["results"][w] = r
+                continue
             try:
-                with impl.time_limit(10):
+                with impl.time_limit(3):
                     t = p.parse(w)
                 r["kind"] = "ok"
                 r["tree"] = impl.node_sx(t, gi)
@@ -88,9 +94,11 @@ def _worker(job):
                 r["pos"] = e.location.start_position
             except BaseException as e:  # noqa
                 r["kind"] = "exc:" + impl.exc_kind(e)
+                if r["kind"] == "exc:Timeout":
+                    n_to += 1
             if glr is not None:
                 try:
-                    with impl.time_limit(10):
+                    with impl.time_limit(5):
                         f = glr.parse(w)
                         r["glr"] = [len(f), impl.tree_sx(f[0], gi)]
                 except parglare.SyntaxError:
@@ -156,9 +164,12 @@ def token_chain_ok(leaves, rx, sk, n, consume=True):
 
 
 def run(ctx):
+    import time
+    t0 = time.time()
     jobs = gen_jobs(ctx)
     with mp.Pool(common.NPROC) as pool:
         results = pool.map(_worker, jobs, chunksize=1)
+    t_impl = time.time() - t0
     st = {"grammars": 0, "grammar_errors": {}, "combos": 0, "construct": {}, "deterministic_combos": 0,
           "parses": 0, "accepts": 0, "syntax_errors": 0, "disambiguation_errors": 0, "other": {},
           "glr_compared": 0, "ref_sentences": 0, "ref_nonsentences": 0, "tables_validated": 0,
@@ -193,8 +204,13 @@ def run(ctx):
                 if res["kind"] == "ok":
                     mcases.append((5, [r["grammar"], res["tree"]]))
                     meta.append(("treeok", r, c, w))
+    t1 = time.time()
     outs = common.model_run(mcases)
+    t_model = time.time() - t1
+    t1 = time.time()
     nx, xok, xlog = common.coq_crosscheck("C04", mcases, outs, ctx.rng, sample=40 if ctx.quick() else 150)
+    t_x = time.time() - t1
+    st["timing_s"] = {"impl": round(t_impl, 1), "model": round(t_model, 1), "crosscheck": round(t_x, 1)}
     if not xok:
         ctx.violation("extraction cross-check failed: OCaml driver and vm_compute disagree",
                       {"log": xlog}, no_input=True)
@@ -219,6 +235,8 @@ def run(ctx):
                               key="table_complete")
             continue
         res = c["results"][w]
+        if res["kind"] == "skipped-after-timeouts":
+            continue
         if kind == "treeok":
             st["trees_certified"] += 1
             sk = sk_ws(w)
